@@ -549,6 +549,12 @@ func (m *Model) Judge(o *Op, rec *nat.CallRecord, before, obs *Obs, height uint3
 		}
 	case KRegisterSideChain:
 		c := *o.Chain
+		if cur := m.Chains[c.ID]; cur != nil {
+			add("C35", "side_chain:registration-request-accepted-for-registered-chain",
+				fmt.Sprintf("registerSideChain for chain %d succeeded although the id is registered (owner %s)", c.ID, m.W.nameOf(cur.Owner)))
+		} else {
+			m.Count("registration_request_for_free_id_ok", 1)
+		}
 		m.newIncarnation(KApproveRegisterSC, fmt.Sprint(c.ID), &pend{Chain: &c, Requester: signer})
 	case KUpdateSideChain:
 		c := *o.Chain
